@@ -947,6 +947,15 @@ impl<S: MSub + Send> System for MSys<S> {
     fn may_inject(&self, o: &MObj<S>) -> bool {
         o.inj_used < self.inj_budget
     }
+    fn audit_suffixes(&self, o: &MObj<S>) -> Vec<Vec<u32>> {
+        // observations are non-mutating here and run on every arrival in audit mode; the suffixes add the
+        // state-changing operations whose effect could depend on hidden state: clear, then reuse
+        let mut v = vec![vec![op(K_CLEAR, 0)]];
+        if let Some(k) = (0..self.n).map(|i| 2 * i + 1).find(|k| !o.model.contains_key(k)) {
+            v.push(vec![op(K_CLEAR, 0), op(K_INS, k)]);
+        }
+        v
+    }
     fn step_allowed(&self, o: &MObj<S>, op: u32) -> bool {
         let mut v = vec![];
         self.enabled(o, &mut v);
